@@ -200,6 +200,73 @@ func c1profile1(thorough bool) []*c1pkg {
 	return pkgs
 }
 
+// --- profile 2: every statement form in every block context (nesting depth <= 2) -----------------
+
+func c1profile2(thorough bool) []*c1pkg {
+	decls := "import \"fmt\"\n\ntype T struct {\n\tn int\n}\n\nfunc (t *T) Inc() int {\n\tt.n++\n\treturn t.n\n}\n\nfunc f() int {\n\treturn 2\n}\n\nfunc g() (int, string) {\n\treturn 3, \"g\"\n}\n\nvar G = 1\n\n"
+	stmts := []string{
+		"a := 1\nx += a", "var a int\nx += a + 1", "var a, b = 1, 2\nx += a * b", "a, b := 1, \"s\"\nx += a\nz += b", "x = 2", "x, y = y, x", "x += 2", "x -= y", "x *= 3", "x++", "y--",
+		"const c = 3\nx += c", "a, b := g()\nx += a\nz += b", "_, b := g()\nz += b", "a, _ := g()\nx += a",
+		"if x > 0 {\n\tx = 10\n}", "if x < 0 {\n\tx = 10\n} else {\n\tx = 20\n}", "if a := f(); a > x {\n\tx = a\n} else if a == x {\n\tx = 0\n} else {\n\tx = -a\n}",
+		"for i := 0; i < 3; i++ {\n\tx += i\n}", "for x < 5 {\n\tx += 2\n}", "for {\n\tx++\n\tif x > 3 {\n\t\tbreak\n\t}\n}", "for i, v := range s {\n\tx += i * v\n}", "for _, v := range s {\n\tif v == 2 {\n\t\tcontinue\n\t}\n\tx += v\n}",
+		"for k := range m {\n\tz += k\n}", "for range s {\n\tx++\n}", "for i, c := range \"hé!\" {\n\tx += i + int(c)\n}", "for i := range s {\n\ts[i] *= 2\n}",
+		"switch x {\ncase 1:\n\tx = 100\ncase 2:\n\tx = 200\ndefault:\n\tx = 300\n}", "switch {\ncase x > 1:\n\tx = 7\ncase y > 1:\n\tx = 8\n}", "switch z {\ncase \"q\":\n\tx = 1\ndefault:\n\tbreak\n}",
+		"s = append(s, x)", "s = append(s, s...)", "delete(m, \"k\")", "copy(s, []int{9})", "s[0] = x + 1", "m[\"n\"] = x", "m[\"k\"] += 2", "t.n = x", "t.n += 2", "t.Inc()", "x = t.Inc() + f()", "f()",
+		"v, ok := m[\"k\"]\nif ok {\n\tx += v\n}", "v, ok := m[\"zz\"]\nif !ok {\n\tx += v + 1\n}", "_ = x", "G += x", "G++", "if len(s) > 1 {\n\ts = s[1:]\n}", "s = s[:1]", "z = z + \"!\"", "z += fmt.Sprint(x)", "w := &T{n: x}\nx = w.Inc()", "h := t.Inc\nx = h()", "k := f\nx = k()", "q := func(a int) int {\n\treturn a * 2\n}\nx = q(x)",
+		"var e []string\ne = append(e, z)\nx += len(e)", "mm := map[int][]int{}\nmm[1] = append(mm[1], x)\nx += len(mm[1]) + len(mm[2])", "var p *T\nif p == nil {\n\tp = t\n}\np.n++",
+	}
+	ctxs := []struct{ open, close string }{
+		{"", ""},
+		{"if y > 0 {\n", "}\n"},
+		{"if y < 0 {\n\tx = -1\n} else {\n", "}\n"},
+		{"for j := 0; j < 2; j++ {\n", "}\n"},
+		{"for _, u := range []int{1, 2} {\n\t_ = u\n", "}\n"},
+		{"switch y {\ncase 2:\n", "}\n"},
+		{"switch y {\ncase 1:\n\tx = -2\ndefault:\n", "}\n"},
+		{"for n := 0; n < 3; n++ {\n\tif n == 1 {\n\t\tcontinue\n\t}\n", "}\n"},
+	}
+	var pkgs []*c1pkg
+	cur := &c1pkg{decls: decls}
+	flush := func() {
+		if len(cur.snippets) > 0 {
+			cur.name = fmt.Sprintf("pb%04d", len(pkgs))
+			pkgs = append(pkgs, cur)
+		}
+		cur = &c1pkg{decls: decls}
+	}
+	wrap := func(st string, c int) string {
+		if ctxs[c].open == "" {
+			return st
+		}
+		return ctxs[c].open + c02indent(st, "\t") + ctxs[c].close
+	}
+	for si, st := range stmts {
+		for c1 := range ctxs {
+			inner := []int{0}
+			if c1 > 0 {
+				inner = []int{0, 1, 3, 6}
+				if thorough {
+					inner = []int{0, 1, 2, 3, 4, 5, 6, 7}
+				}
+			}
+			for _, c2 := range inner {
+				if c1 > 0 && c2 == c1 && (c1 == 3 || c1 == 7) {
+					continue // the same loop variable twice
+				}
+				body := strings.TrimRight(wrap(strings.TrimRight(wrap(st, c2), "\n"), c1), "\n")
+				full := "x, y, z := 1, 2, \"q\"\ns := []int{1, 2, 3}\nm := map[string]int{\"k\": 5}\nt := &T{n: 4}\nG = 1\n" + body + "\nsum := 0\nfor _, e := range s {\n\tsum = (sum*3 + e) % 10007\n}\nfmt.Println(x, y, z, len(s), sum, len(m), m[\"k\"], m[\"n\"], t.n, G)"
+				cur.snippets = append(cur.snippets, c02indent(full, "\t"))
+				cur.keys = append(cur.keys, fmt.Sprintf("statement %d in context %d/%d: %s", si, c1, c2, strings.ReplaceAll(st, "\n", "; ")))
+				if len(cur.snippets) == 120 {
+					flush()
+				}
+			}
+		}
+	}
+	flush()
+	return pkgs
+}
+
 // --- profile 3: types and containers --------------------------------------------------------
 
 func c1profile3() []*c1pkg {
@@ -379,12 +446,13 @@ func c1goatFiles(pkg string, files map[string]string) map[string]string {
 
 func c01run(r *report.Run) {
 	thorough := r.Tier == "thorough"
-	r.Rule("profiles: (1) 8 lvalue kinds x 13 assignment operators x {int, byte, float64, string} x block contexts x right-hand-side kinds; (3) element types x container shapes x operations, named types, nil comparisons, constants, conversions; (4) the C09 call configurations; (5) every bundled math/strings/strconv/errors/fmt function x boundary argument pools; (6) multi-package layouts (exported const/var/func/type/method, aliases, packages split over files, chain, diamond, interfaces across packages); (7) 8 run-time fault kinds x 5 positions; (2) control-flow and scoping corpora of C06/C08 at <=3 nodes, slice histories of C11, struct programs of C12; every program compiled and run by the Go toolchain and by goatlang from identical source text; non-trivial = every program (all distinct)")
+	r.Rule("profiles: (1) 8 lvalue kinds x 13 assignment operators x {int, byte, float64, string} x block contexts x right-hand-side kinds; (2) 58 statement forms x 8 block contexts x inner contexts (nesting depth 2); (3) element types x container shapes x operations, named types, nil comparisons, constants, conversions; (4) the C09 call configurations; (5) every bundled math/strings/strconv/errors/fmt function x boundary argument pools; (6) multi-package layouts (exported const/var/func/type/method, aliases, packages split over files, chain, diamond, interfaces across packages); (7) 8 run-time fault kinds x 5 positions; (2) control-flow and scoping corpora of C06/C08 at <=3 nodes, slice histories of C11, struct programs of C12; every program compiled and run by the Go toolchain and by goatlang from identical source text; non-trivial = every program (all distinct)")
 	r.Assume("the supported subset is the grammar of DESIGN.md §4; int values are kept inside the int32 range so that Go's 64-bit int and goatlang's 32-bit int agree", "one Go toolchain (the installed one); printed multi-entry maps never occur in generated programs")
 	cache := oracle.OpenCache("c01")
 	defer cache.Save()
 	var pkgs []*c1pkg
 	pkgs = append(pkgs, c1profile1(thorough)...)
+	pkgs = append(pkgs, c1profile2(thorough)...)
 	pkgs = append(pkgs, c1profile3()...)
 	pkgs = append(pkgs, c1profile5()...)
 	pkgs = append(pkgs, c1profile6()...)
@@ -470,7 +538,17 @@ func c01run(r *report.Run) {
 			return
 		}
 		if gr.Panicked {
-			r.HarnessError("a snippet of %s panics under Go: output so far %q", p.name, trunc(gr.Out, 300))
+			last := -1
+			for _, l := range strings.Split(gr.Out, "\n") {
+				if strings.HasPrefix(l, "#") {
+					fmt.Sscanf(l, "#%d", &last)
+				}
+			}
+			k := ""
+			if last >= 0 && last < len(p.keys) {
+				k = p.keys[last] + "\n" + p.snippets[last]
+			}
+			r.HarnessError("snippet #%d of %s panics under Go: %s", last, p.name, k)
 			return
 		}
 		// split Go's output per snippet
